@@ -226,8 +226,48 @@ def check_fixed_width(ctx, g):
                       % (g["isa"], got.hex(), g["align"], want.hex()), g)
 
 
+class _ScopeCtx:
+    """C01's requests may also be registered through scopes (register_insert): the scope run of C07 - where every scope puts
+    its patch (Spec/Scopes.lean) and the listing check of the output bytes with one insertion per invocation - is run
+    here as well; what it finds is a violation of C01's 'each patch spliced in where requested, nothing else changed'"""
+
+    def __init__(self, ctx):
+        self.__dict__["_c"] = ctx
+
+    def __getattr__(self, k):
+        return getattr(self._c, k)
+
+    def __setattr__(self, k, v):
+        setattr(self._c, k, v)
+
+    def violation(self, sig, what, case):
+        self._c.violation(sig.replace("C07:", "C01:scope:", 1), what, dict(case, scope_case=True) if isinstance(case, dict) else case)
+
+    def mismatch(self, what, case):
+        self._c.mismatch(what, dict(case, scope_case=True) if isinstance(case, dict) else case)
+
+
+def run_scopes(ctx, n):
+    from props import c07
+
+    sc = _ScopeCtx(ctx)
+    pending = []
+    for _ in range(n):
+        case = c07.rename_functions(emodify.gen_case(ctx.rng, nedits=0), ctx.rng)
+        if ctx.rng.random() < 0.4:
+            code = [i for i, d in enumerate(case["text"]) if d["kind"] == "code"]
+            case["entry"] = ctx.rng.choice(code)
+        regs = c07.gen_regs(ctx.rng, case)
+        if any(d["kind"] == "code" and emodify.block_size(d) == 0 for d in case["text"]):
+            continue            # the recorded C07 finding (a scope designating a zero-sized block) is C07's
+        ctx.count("scope-registrations")
+        c07.check_case(sc, case, regs, False, pending)
+    c07.flush(sc, pending)
+
+
 def run(ctx):
     LE.run(ctx, "C01", 1500, 40000)
+    run_scopes(ctx, ctx.budget(150, 3000))
     for k in range(ctx.budget(24, 300)):
         check_fixed_width(ctx, {"fixed_width": True, "isa": ["ARM64", "MIPS32"][k % 2], "n1": 2 + k % 3, "n2": 1 + (k // 2) % 2,
                                 "align": [8, 16, 32][k % 3], "at": k % 3, "count": 1 + (k // 3) % 3})
@@ -239,6 +279,13 @@ def run(ctx):
 
 def replay(ctx, payload):
     case = payload.get("case", payload)
+    if isinstance(case, dict) and case.get("scope_case"):
+        from props import c07
+
+        pending = []
+        c07.check_case(_ScopeCtx(ctx), case["case"], case["regs"], case.get("two_passes", False), pending)
+        c07.flush(_ScopeCtx(ctx), pending)
+        return
     if isinstance(case, dict) and case.get("overlap_case"):
         check_overlap(ctx, case)
     elif isinstance(case, dict) and case.get("lead_case"):
